@@ -587,3 +587,11 @@ mutant("benign-locked-memo", "clean", edits=[
                 self.isc_base - D("0.02"), D("15")
             )""")],
     note="a CORRECT lock-protected process-wide memo (value read into a local under the lock)")
+
+# ------------------------------------------------------------------------------ C16: state that survives between builder calls
+mutant("c16-questions-memo-extended-in-place", "C16", edits=[
+    ("cvss/interactive.py", "def color(text):", "_QUESTIONS = {}\n\n\ndef color(text):"),
+    ("cvss/interactive.py",
+     "    if all_metrics:\n        metrics = METRICS_ABBREVIATIONS.keys()\n    else:\n        metrics = METRICS_MANDATORY\n",
+     "    if int(version) not in _QUESTIONS:\n        _QUESTIONS[int(version)] = list(METRICS_MANDATORY)\n    metrics = _QUESTIONS[int(version)]\n    if all_metrics:\n        metrics += [m for m in METRICS_ABBREVIATIONS.keys() if m not in metrics]\n")],
+    note="a single call in a fresh process is always right; after an all-metrics call, a mandatory-only call of the same major version asks all metrics")
